@@ -90,6 +90,7 @@ def showOut : Out → String
 
 def showCheck : Check → String
   | .unchecked => "unchecked"
+  | .lexical a b c => s!"lexical:{if a then 1 else 0}{if b then 1 else 0}{if c then 1 else 0}"
   | .hier a b c => s!"hier:{if a then 1 else 0}{if b then 1 else 0}{if c then 1 else 0}"
   | .pubOnly => "pubOnly"
   | .pubOnlyOwn e => s!"pubOnlyOwn:{if e then 1 else 0}"
